@@ -301,7 +301,7 @@ def check(ctx, run):
     gl = prog.fn(LST + "::getLeakFrom")
     for f in (ca, rn, rt, gt, gl):
         run.analysed(f)
-    for n in range(0, 5):
+    for n in range(0, 6 if ctx.thorough else 5):
         for pat in itertools.product((0, 1), repeat=n):
             env = list_env(n, {})
             env[ca.params[0]["name"]] = 7
